@@ -671,6 +671,8 @@ class SortedWriter {
     }
 
     async write(stable_entry) {
+        // Use the arrival order (not NR) as the tie-breaker: one input record can produce many entries (JOIN, UNNEST)
+        stable_entry[stable_entry.length - 2] = this.unsorted_entries.length;
         this.unsorted_entries.push(stable_entry);
         return true;
     }
